@@ -30,7 +30,7 @@ CHECKS += [
            "1..3): identity/dot/mat_mult/mat_vec_mult/augmented_matrix equal their definitions cell by cell with frames; "
            "gj_solve soundness by a ghost-solution cut-point invariant checked after every row operation (result = X on "
            "every path returning 0 without a zero diagonal; a back-substitution row may be left un-normalised only when its pivot is exactly 0, and status 1 out of back substitution requires a zero pivot of the triangular matrix); completeness witnesses executed exactly; linalg3.pyx det, "
-           "transform*, zero_matrix_case and eigen_decomposition (modular, against the assumed tred2+tql2 contract). tql2 (QL iteration) is not verified functionally, but its safety contract is proved for every symmetric tridiagonal input and any number of sweeps: the deflation scan stops at the sentinel e[n-1]=0, a sweep starts only with e[l]!=0, p+r!=0, e[n-1]=0 is an invariant of the sweep loop. tred2 (Householder) is proved for the five of its nine paths that have at most one active reflection (orthogonality, A V = V T, e[0]=0); the four two-reflection paths and the tql2 iteration are covered by a bounded native stand-in on 36 matrices. Call sites ('callsites'): every call of the helpers in crksph.py, kernel_correction.py, density_correction.py and interpolator.py passes one argument per parameter, sizes known for every dimension 1..3, and local declare('matrix(K)') buffers at least as long as the helper's precondition (defect repaired: 8da6ade, MLSFirstOrder3D passed its buffer as nmax).",
+           "transform*, zero_matrix_case and eigen_decomposition (modular, against the assumed tred2+tql2 contract). tql2 (QL iteration) is not verified functionally, but its safety contract is proved for every symmetric tridiagonal input and any number of sweeps: the deflation scan stops at the sentinel e[n-1]=0, a sweep starts only with e[l]!=0, p+r!=0, e[n-1]=0 is an invariant of the sweep loop. tred2 (Householder) is proved for the five of its nine paths that have at most one active reflection (orthogonality, A V = V T, e[0]=0); the four two-reflection paths and the tql2 iteration are covered by a bounded native stand-in on 36 matrices. Call sites ('callsites'): every call of the helpers in crksph.py, kernel_correction.py, density_correction.py and interpolator.py passes one argument per parameter, sizes known for every dimension 1..3, and local declare('matrix(K)') buffers at least as long as the helper's precondition (defect repaired: 8da6ade, MLSFirstOrder3D passed its buffer as nmax). 'systems': the augmented matrices kernel_correction.py builds by hand are [M | b] with M as its writer stores it (row-major, L_a = M^-1) for dim 1..3; DWIJ becomes the solution or is left alone.",
       note="float = R; sizes enumerated (the property's own finite range); NOT verified: tred2, tql2 (QL convergence), "
            "get_eigenvalues -> the eigen clause holds only modulo their assumed contract; gj_solve G3 conditional on no "
            "exactly-zero diagonal in back substitution; open findings: no row exchange, absolute pivot tolerance"),
@@ -54,7 +54,7 @@ CHECKS += [
            "compute_h_minimum are cut with quantified prefix invariants (not larger than any array seen AND attained by "
            "one), compute_time_step is verified modularly against those contracts for fixed_h on and off (formula, None "
            "case, never exceeds cfl*hmin/max of any array), set_fixed_h and Solver._compute_timestep (fixed step kept on "
-           "None). Two genuine defects found by these obligations were repaired (fix: commits 49673ab, 852cb8d). Solver._get_timestep's contract (C10: every iteration uses the freshly computed step, damped and clipped) is re-proved here (dep.c10.timestep; obligations that are open findings of C10 are left to C10).",
+           "None). Two genuine defects found by these obligations were repaired (fix: commits 49673ab, 852cb8d). Solver._get_timestep's contract (C10: every iteration uses the freshly computed step, damped and clipped) is re-proved here (dep.c10.timestep; obligations that are open findings of C10 are left to C10). The flag cached by _get_explicit_dt_adapt for all later steps depends only on which arrays DECLARE dt_adapt, not on their particle counts at the first step.",
       note="float = R; numpy/cyarray reductions enter as ghost functions per array (max_c(j), min_adapt(j), hmin(j); "
            "hmin of an empty carray is 0); h.minimum fresh (history assumption); CPU backend, not in_parallel; "
            "quantifier instantiation by z3"),
@@ -68,7 +68,7 @@ CHECKS += [
            "_dump_output_if_needed (dump decision, frame, only shortens, never past a requested time), and the solve "
            "loop cut with an inductive invariant (t<=tf, dt>0, t+dt<=tf; pre/step/post once per pass in order, t "
            "strictly increasing, exit => tf reached or max_steps, output first and last). Four genuine defects are open "
-           "known findings. Solver._compute_timestep (C19) is re-proved here (dep.c19.*). The integrator's step contracts (C19 explicit/step: None or strictly positive) are re-proved here.",
+           "known findings. Solver._compute_timestep (C19) is re-proved here (dep.c19.*). The integrator's step contracts (C19 explicit/step: None or strictly positive) are re-proved here. The loop never runs more than max_steps iterations (invariant count <= max_steps).",
       note="float = R (epsilon tests exact); frames of integrator/callbacks/dump_output assumed; sin axiom for the "
            "damping factor; termination only via the stated exit condition (arbitrary positive steps need not sum to tf "
            "without max_steps); 'never past' is proved for requested times pairwise > 2 eps apart and not exactly eps "
@@ -83,7 +83,7 @@ CHECKS += [
            "explicit d_/s_ name, a missing name needed through a precomputed symbol (closure computed independently from "
            "precomputed_symbols()), a misspelt dest/source => RuntimeError naming it; the same for every stage method of "
            "the shipped IntegratorStep subclasses on two arrays; the check runs before MegaGroup/code generation. The "
-           "implicit clause failed on the pinned tree and was repaired (fix: 7fb24fa). Group.get_array_names (union over equations and precomputed code blocks, cache) is proved; the closure of the precomputed symbols is C02's bounded check, re-run here (dep.c02.*). AccelerationEval.__init__ is executed on a group tree with sub-groups for every back end (every equation checked before the first MegaGroup); the checker is stateless across same-named classes. The needed-name sets are modelled as shared mutable objects (an in-place `-=` reaches the next array's check); a stepper argument spelt s_<name> is a need of the stepper's own array.",
+           "implicit clause failed on the pinned tree and was repaired (fix: 7fb24fa). Group.get_array_names (union over equations and precomputed code blocks, cache) is proved; the closure of the precomputed symbols is C02's bounded check, re-run here (dep.c02.*). AccelerationEval.__init__ is executed on a group tree with sub-groups for every back end (every equation checked before the first MegaGroup); the checker is stateless across same-named classes. The needed-name sets are modelled as shared mutable objects (an in-place `-=` reaches the next array's check); a stepper argument spelt s_<name> is a need of the stepper's own array. Equations without sources (sources=None) still have their destination checked; get_arrays_used_in_equation unites the arrays of all five per-particle methods.",
       note="getfullargspec = AST parameter names (MRO resolved); Group.get_array_names assumed to return the precomputed "
            "closure (validated natively for all 309 classes once, checked in C02); message contents checked only for the "
            "array-name and stepper-class cases; generated code itself not examined"),
@@ -97,7 +97,7 @@ CHECKS += [
            "Shepard lemmas as relational invariants (constant reproduced, result within [min,max] of contributing values, "
            "0 without neighbours); order1: b = M u is invariant for any linear field and post_loop hands (M, b, dim+1) to "
            "augmented_matrix/gj_solve; traces of Interpolator.interpolate (every source's temp_prop written, 0.0 when the "
-           "property is absent; prop[comp::4]), update_particle_arrays and update. One defect repaired (fix: abc38e9). augmented_matrix / gj_solve for n = 4 (C13) are re-proved here (dep.c13.*).",
+           "property is absent; prop[comp::4]), update_particle_arrays and update. One defect repaired (fix: abc38e9). augmented_matrix / gj_solve for n = 4 (C13) are re-proved here (dep.c13.*). Re-proved here: the Python-side evaluator forwards set_nnps/update_particle_arrays (C03 forward) and the array wrappers re-bind (C02 wrapper).",
       note="float = R; group order (C03), neighbours (C01), compiled = Python (C02) and gj_solve soundness (C13) assumed; "
            "the induction over the neighbour list from the per-neighbour step is the standard loop induction, not "
            "machine-checked here; SPHEvaluator/compiled evaluation not examined"),
@@ -111,7 +111,7 @@ CHECKS += [
            "h, d_/s_ not mixed, nothing else assigned); _set_kernel leaves no placeholder. Closure and order of "
            "_setup_precomputed/sort_precomputed: bounded exhaustive (1620 sets), labelled bounded, not counted. Kernel "
            "twins are C08's. The ordering/iteration/range/determinism contracts of C03 that 'in the documented order, over "
-           "the same neighbours' rests on are re-proved in this check (obligations dep.c03.*). CythonGroup._get_code / get_py_initialize_code: every method is called on its own equation object with its parameters passed by name in order, reduce and py_initialize get (dst.array, t, dt). ParticleArrayWrapper.set_array (static Cython of the template) binds array, name, every property and every constant, also on a second call; __init__ and update_particle_arrays go through it. Two equations with py_initialize in one group are both called.",
+           "the same neighbours' rests on are re-proved in this check (obligations dep.c03.*). CythonGroup._get_code / get_py_initialize_code: every method is called on its own equation object with its parameters passed by name in order, reduce and py_initialize get (dst.array, t, dt). ParticleArrayWrapper.set_array (static Cython of the template) binds array, name, every property and every constant, also on a second call; __init__ and update_particle_arrays go through it. Two equations with py_initialize in one group are both called. 'objects': the k-th instance of an equation class gets its own variable name, declaration and constructor call from ITS attributes (equations[i] with i its position). Which arrays are bound per source/destination (get_arrays_used_in_equation over all five methods, Group.get_array_names: C20) is re-proved here.",
       note="the transpiler (compyle), mako glue, Cython and gcc are external: nothing is proved about the transpiled "
            "text, so 'values left in every property equal executing the Python methods' is claimed only for the symbol "
            "table and kernel substitution"),
@@ -124,7 +124,7 @@ CHECKS += [
            "Bounded (labelled, not counted): converged-condition join, MegaGroup._make_data ordering (7380 equation "
            "lists), emission order of the real do_group for all 2^10 guard valuations x 1-2 dests x 0-2 sources, nesting of "
            "the mega-group loop of compute() (388 group trees: every block under exactly its own condition(s) and loop). "
-           "One defect repaired (fix: a804f4e). _compute_group_map and get_condition/pre/post_call: callbacks are emitted on the group's own self.groups[i](.data[j]) entry even when names coincide.",
+           "One defect repaired (fix: a804f4e). _compute_group_map and get_condition/pre/post_call: callbacks are emitted on the group's own self.groups[i](.data[j]) entry even when names coincide. Python-side AccelerationEval.compute/set_nnps/update_particle_arrays/set_compiled_object forward the same arguments to the compiled evaluator ('forward').",
       note="Cython semantics of the emitted lines and compyle get_parallel_range assumed; the meaning of emitted calls is "
            "not examined; bounded parts are enumerations of the real functions with stated bounds"),
 ]
@@ -137,7 +137,7 @@ CHECKS += [
            "delegation); Integrator.compute_accelerations refreshes pm then nnps strictly before compute iff update_nnps; "
            "trace contract of one_timestep of all 15 shipped integrators (stages increasing, one do_post_stage(c*dt,k) "
            "per stage, 0<c<=1, last c=1); write-frame of every stepper method. Bounded: get_timestep_code = body of "
-           "one_timestep (15 classes), stage-wrapper emission of the real template (real=True, py_stage before loop). The emitters that wire steppers into the compiled integrator (get_stepper_defs/init/loop, get_array_setup, get_py_stage_code, get_stepper_method_wrapper_names, has_stepper_loop) are executed on two steppers of different classes and compared with the documented text. Bounded: get_timestep_code also on three synthetic integrators with trailing comments, '#' inside a string, nested blocks and multi-line statements.",
+           "one_timestep (15 classes), stage-wrapper emission of the real template (real=True, py_stage before loop). The emitters that wire steppers into the compiled integrator (get_stepper_defs/init/loop, get_array_setup, get_py_stage_code, get_stepper_method_wrapper_names, has_stepper_loop) are executed on two steppers of different classes and compared with the documented text. Bounded: get_timestep_code also on three synthetic integrators with trailing comments, '#' inside a string, nested blocks and multi-line statements. Integrator.step/set_nnps/set_parallel_manager/set_post_stage_callback/set_compiled_object/set_acceleration_evals/initial_acceleration forward exactly their arguments ('forward').",
       note="compyle/Cython/mako external; user-defined integrators only via the same checkers; frames do not follow "
            "helper calls"),
  dict(id='C05',
@@ -154,7 +154,7 @@ CHECKS += [
            "contracts (symbolic index sets) of InletBase.update, hybrid Inlet.update, OutletBase.update incl. inactive "
            "stages: extract I={ioid==0} to the fluid then shift exactly x/y/z[I] by +-L*n on inlet/ghost; extract "
            "O={ioid==1} to the outlet THEN remove the same O from the fluid, remove {ioid==2} from the outlet; evaluator "
-           "wiring (zone array maxdist=length, fluid array unbounded, real=False). The ParticleArray contracts the hand-over relies on (extract into an array that may hold ghosts, remove, align, add_particles: C06) are re-proved in this check (dep.c06.*). Zone length: _update_inlet_outlet_info gives |n.(extent+dx)|, one layer has length dx. Mirror Outlet.update is executed symbolically with and without a ghost array and for any number of leaving particles: the leaving set is removed from the fluid on every path, the ghost copy is the reflected position with negated u. Every family's SimpleInletOutlet.get_stepper (hybrid, mirror, characteristic, donothing, mod_donothing) sets active_stages=[2] on the branch that hands out zone steppers for any number (0..2 enumerated) of inlets/outlets/ghost zones, and gives every inlet an inlet stepper and every outlet an outlet stepper. A destination array that is empty is still the destination (the truth value of an instance goes through __bool__/__len__ of its class in the executor).",
+           "wiring (zone array maxdist=length, fluid array unbounded, real=False). The ParticleArray contracts the hand-over relies on (extract into an array that may hold ghosts, remove, align, add_particles: C06) are re-proved in this check (dep.c06.*). Zone length: _update_inlet_outlet_info gives |n.(extent+dx)|, one layer has length dx. Mirror Outlet.update is executed symbolically with and without a ghost array and for any number of leaving particles: the leaving set is removed from the fluid on every path, the ghost copy is the reflected position with negated u. Every family's SimpleInletOutlet.get_stepper (hybrid, mirror, characteristic, donothing, mod_donothing) sets active_stages=[2] on the branch that hands out zone steppers for any number (0..2 enumerated) of inlets/outlets/ghost zones, and gives every inlet an inlet stepper and every outlet an outlet stepper. A destination array that is empty is still the destination (the truth value of an instance goes through __bool__/__len__ of its class in the executor). 'setup': get_inlet_outlet builds each zone's update object on (zone array, fluid array, zone info, kernel, dim, active_stages, paired ghost or None) after refreshing the zone record from the zone's own array; InletBase/OutletBase constructors store every argument under its name and initialize() reads reference point, normal and length from the zone record.",
       note="io_eval.evaluate sets ioid per the IOEvaluate contract (compiled evaluation assumed); ParticleArray "
            "extract/remove/add contracts are C06's; count conservation follows from them, not re-proved here; "
            "get_stepper zone lists are enumerated up to length 2 (loop bodies do not depend on the count)"),
@@ -185,7 +185,7 @@ CHECKS += [
            "the mirror translation -2(x-min)/2(max-x) in lockstep); trace contract of the periodic and mirror ghost "
            "construction for two arrays (documented order, images shifted along the right axis from the old end of the "
            "buffer, corner passes over the ghost buffer, matching velocity component negated, lists filled by this "
-           "array's scan); update() removes old ghosts first. One defect repaired (fix: a11db0a). Also: every scan covers the whole column it reads (ghosts of earlier passes included), every ghost buffer is emptied exactly once before images are collected in it, and the first-update branch (buffers cloned) is checked separately. Construction ('construct'): DomainManager.__init__ forwards every argument under its own name to the manager it creates, CPUDomainManager.__init__ forwards every one to DomainManagerBase.__init__, which stores each in the attribute of the same name (translate = max - min); the facade's methods forward to the manager. For every combination of the axis flags each scan covers the whole column it reads (ghost-buffer length modelled per program point: empty until something is copied into it).",
+           "array's scan); update() removes old ghosts first. One defect repaired (fix: a11db0a). Also: every scan covers the whole column it reads (ghosts of earlier passes included), every ghost buffer is emptied exactly once before images are collected in it, and the first-update branch (buffers cloned) is checked separately. Construction ('construct'): DomainManager.__init__ forwards every argument under its own name to the manager it creates, CPUDomainManager.__init__ forwards every one to DomainManagerBase.__init__, which stores each in the attribute of the same name (translate = max - min); the facade's methods forward to the manager. For every combination of the axis flags each scan covers the whole column it reads (ghost-buffer length modelled per program point: empty until something is copied into it). The ParticleArray record-keeping contracts (ensure_properties / empty_clone keep type, default, stride: C06 misc) are re-proved here.",
       note="ParticleArray operations assumed (C06); the set lemma 'every face/edge/corner image exactly once' is "
            "mathematics and only pre-screened; GPU/MPI paths not examined; replay of violations builds the extension "
            "from the working tree (about 1 min)"),
@@ -197,7 +197,7 @@ CHECKS += [
            "follows next[] to UINT_MAX; the octree / z-order / stratified-SFC versions copy exactly the first "
            "num_particles pids of the REQUESTED array; spatially_order_particles passes the same index list and each "
            "property's own stride to c_align_array of every property and re-aligns the array afterwards. One defect "
-           "repaired (fix: 994cb80, ghosts interleaved with real particles). Solver.reorder_particles (re-order every array, then update() whatever the domain: C05) is re-proved here (dep.c05.*); the search object's is_periodic flag is arbitrary. lemmas/PushFront.lean (thorough tier) proves that the head/next chains hold exactly the binned particles of their cell, each once. Re-proved here: the sorted-key classes re-sort on every refill (C01 sortkeys) and every array is binned whole (C01 update).",
+           "repaired (fix: 994cb80, ghosts interleaved with real particles). Solver.reorder_particles (re-order every array, then update() whatever the domain: C05) is re-proved here (dep.c05.*); the search object's is_periodic flag is arbitrary. lemmas/PushFront.lean (thorough tier) proves that the head/next chains hold exactly the binned particles of their cell, each once. Re-proved here: the sorted-key classes re-sort on every refill (C01 sortkeys) and every array is binned whole (C01 update). Also re-proved: the CellIndexing key widths (C01 cellkey) and the octree index spaces (C01 pidspace).",
       note="glue lemma 'push-front lists built from empty lists are a partition, so the walk yields a permutation' and "
            "std::sort permuting the pid arrays are mathematics/assumed, not machine-checked; cyarray c_align_array and "
            "ParticleArray.align_particles are assumed (C06); 'queries after the following update are exact' is C01's "
@@ -215,7 +215,7 @@ CHECKS += [
            "BOUNDED stand-in (never counted as proved): extensions built from the working tree, 12 classes x 7 (quick) / "
            "11 (thorough) distributions x dims 1-3 x cache on/off x knob variants x 2 update rounds against the definition. "
            "Two defects repaired (fix: 6eae934, 613605a); open findings in the z-order / stratified-SFC / compressed-octree "
-           "classes listed in known_findings.json. sort_gids: what every class hands to _sort_neighbors is exactly the segment appended by this call, and every constructor records the flag (one more defect repaired: 9af8932). NeighborCache ('cache'): _find_neighbors run by thread t records _pid_to_tid[d]=t, the appended segment of _neighbors[t] and _cached[d]=1 and touches no other entry; get_neighbors_raw(d) run by any thread returns exactly (_neighbors[_pid_to_tid[d]], that segment), calling _find_neighbors first iff the entry is not cached (caller proved against the callee's contract); replay: cache filled by the OpenMP loop under 1 and 8 threads, read from the main thread. CellIndexingNNPS key ('cellkey', machine integers: pyvc/cint.py on the typed extraction): the four decoders invert _get_key for all field widths with I+J+K < width of the key type, with no undefined shift; _bin/_refresh choose widths that hold every particle and cell index; the four fields fit the key type for every array of < 2^31 particles on <= 2047 cells per axis (defect repaired: 032fd62, 32-bit keys overflowed at 65536 particles on 256 x 256 cells). Octree root ('octroot'): _calculate_domain's cube contains every particle, the root hmax is the largest h, and both tree classes create the root from these values. Index spaces ('pidspace'): in every octree builder / query loop that translates a position through an index container, particle data is indexed by the translated id (serial and OpenMP builders; replay under 1, 2, 8 threads). 'sortkeys': in the three sorted-key classes the sort of the key array is an unconditional statement between filling and searching the keys. NNPS.update bins the TOTAL number of particles of every array (ghosts included; oracle scenario with ghost/remote particles added).",
+           "classes listed in known_findings.json. sort_gids: what every class hands to _sort_neighbors is exactly the segment appended by this call, and every constructor records the flag (one more defect repaired: 9af8932). NeighborCache ('cache'): _find_neighbors run by thread t records _pid_to_tid[d]=t, the appended segment of _neighbors[t] and _cached[d]=1 and touches no other entry; get_neighbors_raw(d) run by any thread returns exactly (_neighbors[_pid_to_tid[d]], that segment), calling _find_neighbors first iff the entry is not cached (caller proved against the callee's contract); replay: cache filled by the OpenMP loop under 1 and 8 threads, read from the main thread. CellIndexingNNPS key ('cellkey', machine integers: pyvc/cint.py on the typed extraction): the four decoders invert _get_key for all field widths with I+J+K < width of the key type, with no undefined shift; _bin/_refresh choose widths that hold every particle and cell index; the four fields fit the key type for every array of < 2^31 particles on <= 2047 cells per axis (defect repaired: 032fd62, 32-bit keys overflowed at 65536 particles on 256 x 256 cells). Octree root ('octroot'): _calculate_domain's cube contains every particle, the root hmax is the largest h, and both tree classes create the root from these values. Index spaces ('pidspace'): in every octree builder / query loop that translates a position through an index container, particle data is indexed by the translated id (serial and OpenMP builders; replay under 1, 2, 8 threads). 'sortkeys': in the three sorted-key classes the sort of the key array is an unconditional statement between filling and searching the keys. NNPS.update bins the TOTAL number of particles of every array (ghosts included; oracle scenario with ghost/remote particles added). 'eshreach': ExtendedSpatialHashNNPS._neighbor_boxes keeps an occupied sub-cell iff it is within ceil(radius_scale*max(h_query, cell h_max)/h_sub) sub-cells along every axis, plus the glue lemma that no sub-cell holding a true neighbour is farther. 'boxes27': SpatialHashNNPS/CellIndexingNNPS._neighbor_boxes emit exactly the adjacent cells with non-negative indices, each once, for every cell index. 'sortnbrs': NNPS._sort_neighbors leaves a permutation of the local indices of the segment, in index order without gids and in gid order with them (segments of length 0..3, std::sort assumed). 'sentinel': z-order/SFC lookup results are tested against the empty marker -1 only. 'shreach': per level, the layers StratifiedHashNNPS searches times the level's cell size cover max(radius_scale*h, hmax_level).",
       note="completeness, duplicate-freedom and index validity of the ten non-linked-list classes are only covered by the "
            "bounded stand-in (C++ hash tables, sorted key arrays and octrees are outside the VC generator); threads filling "
            "the cache are not modelled; pairs at exactly the cut-off are left open as the property says; 'the lists hold "
